@@ -8,6 +8,7 @@ controller according to the schedule (a list of thread ids).  One model step = o
 the thread-local computation that follows it.
 """
 import functools
+import sys
 import threading
 import time
 import warnings
@@ -88,11 +89,22 @@ def _tracked(rec, self, obj_kind):
     return rec.owner_is_target() and not rec.constructing()
 
 
+# reads of the lazily initialised fitter attributes, by source site (file, line): coverage of the static scan
+LAZY_ATTRS = {'x', 'z', '_size', '_shape', 'x_domain', 'z_domain', '_validated_x', '_validated_z'}
+COVER = set()
+
+
 def _mk_get(orig, cells, obj_kind):
+    is_fit = obj_kind.startswith('fit')
+
     def __getattribute__(self, name):
         rec = _REC
-        if rec is not None and name in cells and _tracked(rec, self, obj_kind):
-            rec.access('R', obj_kind, cells[name])
+        if rec is not None:
+            if is_fit and name in LAZY_ATTRS and id(self) in rec.targets:
+                fr = sys._getframe(1)
+                COVER.add((fr.f_code.co_filename, fr.f_lineno, name))
+            if name in cells and _tracked(rec, self, obj_kind):
+                rec.access('R', obj_kind, cells[name])
         return orig(self, name)
     return __getattribute__
 
